@@ -77,6 +77,54 @@ def direct_verbatim(line: str, real_out: str):
     return True
 
 
+def attr_helpers_keep_markup(ck) -> int:
+    """trusted markup held in a class / style attribute stays verbatim through the helpers that edit the attribute
+    (add_class, add_style with and without prepend, remove_class of another token): whatever the attribute looked like
+    before — with or without a trailing semicolon, given at construction or through attrs — the HTML() part is written
+    byte for byte and the plain part is escaped once"""
+    from htmltools import HTML, Tag
+    n = 0
+    trusted = ["a&b", "x<y;", 'q"r', "u:url('a&b')", "m&amp;n;", "k:v", "l\nm;", "&lt;"]
+    added = [("p", "c:d;"), ("h", "e&f;"), ("p", "g<h;"), ("h", 'i"j;')]
+    for t0 in trusted:
+        for how in ("ctor", "attrs"):
+            for kind, x in added:
+                for pre in (False, True):
+                    n += 1
+                    tag = Tag("div", style=HTML(t0)) if how == "ctor" else Tag("div")
+                    if how == "attrs":
+                        tag.attrs["style"] = HTML(t0)
+                    try:
+                        tag.add_style(HTML(x) if kind == "h" else x, prepend=pre)
+                        out = tag.get_html_string()
+                    except Exception as e:  # noqa: BLE001
+                        out = f"raised {type(e).__name__}: {e}"
+                    ck.holds_checked += 1
+                    if f'"{t0} ' not in out and f' {t0}"' not in out:
+                        ck.py_violation(f"add_style {how} {t0!r} {kind} {x!r} prepend={pre}", out,
+                                        f"the trusted style value {t0!r} is not written verbatim after add_style: {out!r}",
+                                        py=f"t = Tag('div', style=HTML({t0!r})); t.add_style({'HTML(' + repr(x) + ')' if kind == 'h' else repr(x)}, prepend={pre}); t.get_html_string()")
+            for tok in ("tok", "a<b"):
+                n += 1
+                tag = Tag("div", class_=HTML(t0 + " z"))
+                try:
+                    tag.add_class(tok)
+                    tag.remove_class("z")
+                    out = tag.get_html_string()
+                except Exception as e:  # noqa: BLE001
+                    out = f"raised {type(e).__name__}: {e}"
+                ck.holds_checked += 1
+                first = " ".join(t0.split())       # remove_class re-joins the remaining tokens by single spaces
+                if f'"{first} ' not in out:
+                    ck.py_violation(f"class helpers {t0!r} {tok!r}", out,
+                                    f"the trusted class value {t0!r} is not written verbatim after add_class / remove_class: {out!r}",
+                                    py=f"t = Tag('div', class_=HTML({(t0 + ' z')!r})); t.add_class({tok!r}); t.remove_class('z'); t.get_html_string()")
+    ck.exhaustive_scopes.append({"scope": "attribute helpers keep trusted markup verbatim: 8 HTML() style / class values (with and without a "
+                                          "trailing semicolon, with & < \" ' LF) x {constructor, attrs[...]} x 4 added values x prepend; add_class + remove_class",
+                                 "n": n, "exhaustive": True})
+    return n
+
+
 def every_path(ck, rng) -> int:
     """"on every rendering path": the same trusted markup through Tag / TagList / HTMLDocument rendering, through a
     dependency's head hoisted by HTMLDocument, and through HTMLTextDocument's placeholder substitution"""
@@ -182,6 +230,7 @@ def run(tier: str) -> int:
                                           + str(gen.ALIAS_LENGTHS) + "; case variants / near misses of void and no-escape names", "exhaustive": True})
     subst.check_cases(ck, cases, {"r", "h"}, "trusted markup must be emitted byte for byte", direct=direct_verbatim)
     n_paths = every_path(ck, rng)
+    n_paths += attr_helpers_keep_markup(ck)
     ck.extra_cov["extra_evaluations"] = len(cases) + n_paths
     ck.extra_cov["rendering_path_cases"] = n_paths
     ck.extra_cov["tree_cases"] = len(cases)
